@@ -43,6 +43,7 @@ class Reply:
     value: Any = None
     exc: Optional[BaseException] = None
     calls: List[tuple] = field(default_factory=list)  # [('set_data', data) | ('set_event', t) | ('get_data', attrs) ...]
+    fault: Optional[str] = None  # remote transport: 'eof' | 'reset' (instead of the reply) | 'eof_idle' (die after replying)
 
 
 class Ctx:
@@ -151,7 +152,7 @@ class AsyncProxy(BaseProxy):
             for call in rep.calls:
                 await self._callback(call)
             if rep.exc is not None:
-                ctx.record({"k": "XE", "s": self.sid, "req": func, "exc": type(rep.exc).__name__})
+                ctx.record({"k": "FAULT", "s": self.sid, "kind": "raise", "req": func})
                 raise rep.exc
             res = rep.value
             if func == "step":
@@ -423,7 +424,10 @@ def execute(scn: dict, behaviour, policy, run_kw=None, world_kw=None, connect_or
             pass
         asyncio.set_event_loop(None)
         CTX = None
+    pend = getattr(loop, "pending_at_close", None)
     ev = {"k": "END", "r": ctx.outcome["r"], "cat": categorize(ctx.outcome), "names": named_sims(scn, ctx.outcome["msg"]),
+          "closed": bool(ctx.loop_closed), "pend": len(pend or []) if ctx.loop_closed else getattr(ctx, "pending_tasks", 0),
+          "pendnames": sorted(set(n.split("-")[0] for n in (pend or []))),
           "msg": ctx.outcome["msg"][:200], "nstops": sum(1 for e in ctx.trace if e["k"] == "STOP")}
     ctx.record(ev)
     return ctx
